@@ -98,6 +98,7 @@ type Exec struct {
 	timers    []*TimerV
 	overreadLen bool
 	seedSummary bool
+	boundedHit  bool
 	speculative bool
 	merges      int
 }
